@@ -42,6 +42,10 @@ def profile(tier, rng):
     return R.Profile(allow=("null_group", "null_join"), max_depth=8 if tier == "quick" else rng.choice([6, 10, 14]),
                      expr_depth=2 if tier == "quick" else rng.choice([2, 3]), pair_keys_p=0.3, self_join_p=0.3,
                      null_tests=["is_null"],
+                     # the PostgreSQL convert_records text (VALUES table syntax) cannot run on the SQLite surrogate
+                     ops={"extend": 5, "wextend": 2, "owextend": 2, "project": 2, "select_rows": 3, "select_columns": 1,
+                          "drop_columns": 1, "rename_columns": 1, "map_columns": 1, "order_rows": 1, "natural_join": 2,
+                          "concat_rows": 1},
                      agg_methods=["sum", "mean", "min", "max", "count", "size", "_size", "one_sum", "std", "var"],
                      win_methods=["sum", "mean", "min", "max", "count", "size", "_size", "std", "var"])
 
